@@ -313,6 +313,11 @@ def gen_equivariance(rng, count):
         if len(w) < 3:
             continue
         entry = rng.choice(names)
+        if fine and 'analytical' in entry and not entry.startswith(('flat_', 'powerlaw_', 'box_')):
+            # a closed form evaluated as a difference of two nearly equal terms (arctan, erf) over a span of a few
+            # thousandths of an Angstrom amplifies the one-ulp difference between unit spellings beyond the tolerance:
+            # conditioning, not equivariance
+            continue
         if entry in BINNED_ENTRIES:
             w = sorted(rng.sample([1000., 1500., 2000., 2500., 3000.], rng.randint(3 if 'waverange' in entry else 2, 5)))
         units = ['AA_number'] + rng.sample(UNITS[1:7] if entry == 'binning.calculate_bin_edges' else UNITS[1:], 3)
